@@ -36,6 +36,13 @@ int main() {
         const auto rnd = in.bytes();
         const i64 kind = in.next(), pos = in.next(), val = in.next();
         const auto seed = static_cast<unsigned>(in.next());
+        const bool again = in.next() != 0;
+        std::vector<std::uint8_t> data2, rnd2; std::array<std::uint8_t, 32> key2{}; unsigned seed2 = 0;
+        if (again) {
+            data2 = in.bytes(); key2 = in.id32();
+            for (int i = 0; i < 12; ++i) in.next();
+            rnd2 = in.bytes(); seed2 = static_cast<unsigned>(in.next());
+        }
         en::Config ca{}; ca.identity_seed = 11u; ca.relay_enabled = false; ca.storage_persistent_enabled = false;
         ca.shard_threshold = static_cast<std::uint8_t>(t); ca.shard_total = static_cast<std::uint8_t>(n);
         en::Config cb = ca; cb.identity_seed = 12u;
@@ -75,5 +82,22 @@ int main() {
         protocol::ChunkPayload payload{}; payload.chunk_id = cid; payload.data = ct; payload.ttl = std::chrono::seconds(60);
         hv::guarded(out, [&] { put_opt(out, decrypt_chunk_with_manifest(protocol::decode_manifest(uri), payload)); });
         (void)ok;
+        if (again) {
+            // the same chunk id is stored again: new payload, key, nonce and shares replace the first ones everywhere
+            hvrd::script.clear(); hvrd::pos = 0;
+            for (std::size_t i = 0; i < key2.size(); ++i) hvrd::script.push_back(key2[i] | static_cast<unsigned>((i * 2654435761u) & 0xFFFFFF00u));
+            hvrd::script.push_back(seed2);
+            for (std::size_t i = 0; i < rnd2.size(); ++i) hvrd::script.push_back(rnd2[i] | static_cast<unsigned>(((i + 7) * 40503u) << 8));
+            protocol::Manifest m2{};
+            if (!hv::guarded(out, [&] { m2 = A.store_chunk(cid, data2, std::chrono::seconds(600)); })) return;
+            hvrd::script.clear();
+            const auto rec2 = A.export_chunk_record(cid);
+            if (!rec2) { out.put(-21); return; }
+            out.bytes(rec2->data);
+            hv::guarded(out, [&] { put_opt(out, A.fetch_chunk(cid)); });
+            const auto uri2 = protocol::encode_manifest(m2);
+            hv::guarded(out, [&] { put_opt(out, B.receive_chunk(uri2, rec2->data)); });
+            hv::guarded(out, [&] { put_opt(out, B.fetch_chunk(cid)); });
+        }
     }, 60);
 }
